@@ -569,6 +569,36 @@ def engineered(l, which, r=0):
     assert 0 < da < q and 0 < db < q
     return da, db, ua, ub
 
+def engineered_product(l, j):
+    """(da, db, ua, ub) for which the INTEGER product (2^l + t) d -- the dividend of the reduction modulo q in the implicit-signature
+    step -- has all-ones words from the top down to word j: d = T div (2^l + t) for the target T = 2^(3l - 64 j) - 1 (the ephemeral keys,
+    hence t, are fixed first).  Carries and corrective additions of the long division then meet all-ones words, which no filler key produces."""
+    ps, Ecv, G, q, no = ctx(l)
+    ua, ub = scalar('c04.eng.ua/%d' % l, l), scalar('c04.eng.ub/%d' % l, l)
+    Va, Vb = mul_g(l, ua), mul_g(l, ub)
+    k = 2 ** l + t_of(l, Va[0], Vb[0])
+    T = 2 ** (3 * l - 64 * j) - 1
+    d = T // k
+    while not 0 < d < q:
+        T >>= 1; d = T // k
+    return d, d, ua, ub
+
+def engineered_remainder(l, j):
+    """(da, db, ua, ub) for which a PARTIAL REMAINDER of the long division of (2^l + t) d by q has an all-ones leading word:
+    floor((2^l + t) d / B^j) mod q lies in [2^2l - 2^(2l - 64), q) (B = 2^64; q itself has an all-ones leading word on the standard curves).
+    The quotient-digit estimate and the borrow of the multiply-subtract step are then both B - 1: the boundary of the corrective
+    addition in zzMod / zzDiv, which a filler key meets with probability 2^-64 per step."""
+    ps, Ecv, G, q, no = ctx(l)
+    ua, ub = scalar('c04.eng.ua/%d' % l, l), scalar('c04.eng.ub/%d' % l, l)
+    Va, Vb = mul_g(l, ua), mul_g(l, ub)
+    k = 2 ** l + t_of(l, Va[0], Vb[0])
+    Bj = 1 << (64 * j)
+    delta = 2 ** (2 * l - 64) - (2 ** (2 * l) - q)
+    s1 = max(1, k // (2 * Bj)) - 1                            # floor(P / B^j) = s1 q + (q - eps) with d = P / k below q (near q / 2 when possible)
+    d = -(-(Bj * (s1 * q + q - delta // 2)) // k)
+    assert 0 < d < q and q - delta <= (k * d // Bj) % q < q, (l, j)
+    return d, d, ua, ub
+
 @functools.lru_cache(maxsize=None)
 def engineered_bauth(l, r=0):
     """(dct, uct, Rt) with sct = (uct - (2^l + t) dct) mod q == r, t = <belt-hash(<Vct>_2l || Rt)>_l"""
@@ -653,6 +683,21 @@ def honest_cases(tier):
                     kcs = kc_sets(proto)
                     for kca, kcb in (kcs if tier == 'thorough' else sorted(set((kcs[0], kcs[-1])), reverse=True)):
                         out.append((nm, base_case(proto, l, kca, kcb, hs[0] if which != 'sab' else hs[1], tapea=le(l, ua), tapeb=le(l, ub), keys=(da, db))))
+            # engineered: the integer product (2^l + t) d has all-ones words (reduction modulo q at its carry / correction boundaries)
+            if proto in ('BMQV', 'BSTS'):
+                for j in ((0, 1) if tier == 'quick' else (0, 1, 2, 3)):
+                    da, db, ua, ub = engineered_product(l, j)
+                    out.append((nm, base_case(proto, l, 1, 1, hs[0], tapea=le(l, ua), tapeb=le(l, ub), keys=(da, db))))
+                    if proto == 'BMQV':
+                        out.append((nm, base_case(proto, l, 0, 0, hs[0], tapea=le(l, ua), tapeb=le(l, ub), keys=(da, db))))
+            if proto in ('BMQV', 'BSTS'):
+                for j in ((1, 2) if tier == 'quick' else (1, 2, 3)):
+                    if 64 * j >= l + 64:
+                        continue                     # no partial remainder at that word position: the product has 3l / 64 + 1 words
+                    da, db, ua, ub = engineered_remainder(l, j)
+                    out.append((nm, base_case(proto, l, 1, 1, hs[0], tapea=le(l, ua), tapeb=le(l, ub), keys=(da, db))))
+                    if proto == 'BMQV':
+                        out.append((nm, base_case(proto, l, 0, 0, hs[0], tapea=le(l, ua), tapeb=le(l, ub), keys=(da, db))))
             if proto == 'BAUTH':
                 dct, uct, Rt = engineered_bauth(l)
                 out.append((nm, base_case(proto, l, 1, 1, hs[0], tapea=Rt, tapeb=vf.filler('c04.Rct/%d' % l, no // 2) + le(l, uct),
